@@ -207,7 +207,7 @@ def runS (cs : SpaceMap) : List SOp → SState → SState
 /-- Is the operand list of `sc/scn/SC/SCN` the one the current colour space asks for? -/
 def scOk (sp : Space) (k : OpK) (xs : List Rat) (pat : Option String) : Bool :=
   if sp.pattern then pat.isSome && (k == .scn || k == .SCN)
-  else (pat.isNone && xs.length == sp.n) || (pat.isSome && xs.length + 1 == sp.n)
+  else sp.n != 0 && ((pat.isNone && xs.length == sp.n) || (pat.isSome && xs.length + 1 == sp.n))
 
 /-- Operand count of the operators whose operands are all numbers (`none`: not such an operator;
 the `sc` family takes the count of the current colour space). -/
